@@ -15,7 +15,11 @@ BREAKS = ['\n', '\n\n', '\n  ', '\n    indented literal\n', '\r\n', '\r', '\x0b'
           ' ', ' ', '\n\t', ' \n', '\n#', '\n"k": "v"', '\n"admin": "@"\n']
 NAMES = ['compute:get', 'os_compute_api:servers:show', 'identity:list_users', 'a', 'admin_required', 'x.y-z_0', 'rule']
 CHECKS = ['role:admin', 'rule:admin_required or project_id:%(project_id)s', '@', '!', '',
-          "(role:a and not role:b) or 'literal':%(k)s", 'is_admin:True', 'http://h/%(x)s', "'x':%(y.z)s"]
+          "(role:a and not role:b) or 'literal':%(k)s", 'is_admin:True', 'http://h/%(x)s', "'x':%(y.z)s",
+          # longer than any line-folding width, with and without spaces to fold at; characters outside Latin-1 / the BMP
+          ' or '.join('role:some_rather_long_role_name_%d' % i for i in range(7)),
+          'rule:' + 'x' * 130, 'role:team-\U00020bb7\u91ce or role:\u00e9quipe', 'role:a\tb',
+          "'" + 'long literal ' * 9 + "':%(k)s and role:z"]
 
 
 def rand_text(rng, hostile=True):
